@@ -82,7 +82,7 @@ def parse_tlc(out):
     if m and not r["ok"]:
         r["error"] = m.group(1)[:300]
     # per-action coverage:  <Action line .. of module M>: distinct:generated
-    for m in re.finditer(r"^<(\w+) line \d+, col \d+ to line \d+, col \d+ of module (\w+)>: (\d+):(\d+)", out, re.M):
+    for m in re.finditer(r"^<(\w+) line \d+, col \d+ to line \d+, col \d+ of module (\w+)(?: \([^)]*\))?>: (\d+):(\d+)", out, re.M):
         key = m.group(2) + "." + m.group(1)
         r["coverage"][key] = r["coverage"].get(key, 0) + int(m.group(4))
     return r
@@ -524,7 +524,9 @@ class Ctx:
         if self.tool_errors:
             ev["coverage"]["tool_errors"] = self.tool_errors[:10]
         os.makedirs(os.path.join(VERIF, "evidence"), exist_ok=True)
-        json.dump(ev, open(os.path.join(VERIF, "evidence", self.pid + ".json"), "w"), indent=1, default=str)
+        # a --replay invocation must not overwrite the evidence of the last full run
+        evpath = os.path.join(self.work, "replay-evidence.json") if getattr(self, "is_replay", False) else os.path.join(VERIF, "evidence", self.pid + ".json")
+        json.dump(ev, open(evpath, "w"), indent=1, default=str)
         if real:
             return 1
         if self.tool_errors:
